@@ -17,8 +17,8 @@
    `spec_step` returns None ("the reference does not say") for rows that do not fit the
    table, a WHERE predicate or CHECK expression that is undefined on some row (SqlSpec: type
    mismatch, integer overflow ...), assignments to unknown or repeated columns, and for writes
-   to p when a foreign key references a column of p that is not declared PRIMARY KEY or
-   UNIQUE (not a legal schema in standard SQL). *)
+   to p when a foreign key references a column of p that is neither declared PRIMARY KEY / UNIQUE
+   nor free of duplicates (not a legal schema in standard SQL). *)
 From Coq Require Import ZArith List Bool.
 From TV Require Import Model.SqlSpec.
 Import ListNotations.
@@ -146,10 +146,14 @@ Fixpoint casc_row_from (ds : list cdecl) (vs : list value) (gone : table) : bool
   | _, _ => false
   end.
 
-(* every foreign key of c references a PRIMARY KEY / UNIQUE column of p *)
-Definition fk_std (sch : schema) : bool :=
+(* every foreign key of c references a column of p that is declared PRIMARY KEY / UNIQUE or at
+   least holds no value twice in the table p given (otherwise "the" parent of a child row is
+   ambiguous; not a legal schema in standard SQL) *)
+Definition fk_std (sch : schema) (p : table) : bool :=
   forallb (fun d => match c_fk d with
-                    | Some f => match nth_error (s_p sch) (fk_col f) with Some pd => is_key pd | None => false end
+                    | Some f => match nth_error (s_p sch) (fk_col f) with
+                                | Some pd => is_key pd || nodupv (colvals (fk_col f) p)
+                                | None => false end
                     | None => true end) (s_c sch).
 (* foreign keys point at existing columns of p; the columns of p carry none *)
 Definition fk_wf (sch : schema) : bool :=
@@ -178,9 +182,9 @@ Definition stmt_defined (sch : schema) (d : db) (s : stmt) : bool :=
   | SUpd t sets w =>
       sets_ok (length (cols_of sch t)) sets && wdefined w (tab_of d t) &&
       forallb (row_def (cols_of sch t)) (upd_tab sets w (tab_of d t)) &&
-      match t with TP => fk_std sch | TC => true end
+      match t with TP => fk_std sch (fst d) | TC => true end
   | SDel t w =>
-      wdefined w (tab_of d t) && match t with TP => fk_std sch | TC => true end
+      wdefined w (tab_of d t) && match t with TP => fk_std sch (fst d) | TC => true end
   end.
 
 (* THE PROPERTY: apply, then keep iff valid *)
